@@ -19,5 +19,5 @@ CONSTANTS
   TopN = 1
 INVARIANTS TypeOK FileNeverHalfWritten OverallStatusFunction CountsAreAdds MessageBounded ExtensionTopN MsgsWellFormed
 PROPERTIES FileStaysPresent QuiescentSnapshot CountsMonotoneBetweenClears ClearEmptiesBoth PublishedCountsMonotone
-  EventCarriesPublishedStatus EventOnlyWhenDue EventWhenDue ClearOnlyWhenDue ClearWhenDue
+  EventCarriesPublishedStatus MonitorTruthful PublishesEveryIteration EventOnlyWhenDue EventWhenDue ClearOnlyWhenDue ClearWhenDue
 CHECK_DEADLOCK TRUE
